@@ -22,6 +22,10 @@ func (tree *ParserT) parseBareword() []rune {
 	}
 
 endBareword:
+	if i > len(tree.expression) {
+		// charPos was already at the end of the input (eg a trailing `:`)
+		i = len(tree.expression)
+	}
 	value := tree.expression[tree.charPos:i]
 	tree.charPos = i
 	return value
